@@ -106,8 +106,10 @@ def run(seed=0):
                     fails.append(f"{name}: raised {type(e).__name__}: {e}")
         # Real-mode linspace / arange models with symbolic-constant arguments
         for t in range(40):
-            lo = float(np.round(rng.uniform(0, 3), 2))
-            hi = lo + float(np.round(rng.uniform(0.5, 6), 2))
+            # dyadic values: (hi - lo) / step is exact in doubles, so the exact-real model and numpy's floating-point
+            # length rule must agree (the rounding cases are the subject of the FP models below)
+            lo = float(rng.integers(0, 25)) / 8.0
+            hi = lo + float(rng.integers(4, 49)) / 8.0
             k = int(rng.integers(1, 9))
             n_cases += 2
             got = _v(NPX.linspace(sym.lift(lo), sym.lift(hi), k, endpoint=False))
